@@ -20,6 +20,20 @@ for d, marker in plan["dirs"]:
             f.write("[Container]\nImage=img\n")
 for d in set(x[0] for x in plan["dirs"]):
     os.chmod(d, 0o755)
+# an ancestor of /etc/containers/systemd/users may be a symbolic link (relative or absolute target)
+lay = plan.get("layout", "plain")
+if lay == "containers_symlink":
+    os.rename("/etc/containers", "/etc/containers.real"); os.symlink("containers.real", "/etc/containers")
+elif lay == "containers_symlink_abs":
+    os.rename("/etc/containers", "/etc/containers.real"); os.symlink("/etc/containers.real", "/etc/containers")
+elif lay == "systemd_symlink":
+    os.rename("/etc/containers/systemd", "/etc/containers/systemd.real"); os.symlink("systemd.real", "/etc/containers/systemd")
+elif lay == "users_symlink_abs":
+    os.rename("/etc/containers/systemd/users", "/etc/containers/users.real"); os.symlink("/etc/containers/users.real", "/etc/containers/systemd/users")
+elif lay == "users_symlink":
+    os.rename("/etc/containers/systemd/users", "/etc/containers/users.real"); os.symlink("../users.real", "/etc/containers/systemd/users")
+elif lay == "systemd_symlink_abs":
+    os.rename("/etc/containers/systemd", "/etc/containers/systemd.real"); os.symlink("/etc/containers/systemd.real", "/etc/containers/systemd")
 PY
 for run in $(python3 -c "import json,sys; print(' '.join(str(r) for r in json.load(open('$1'))['uids']))"); do
   if [ "$run" = "root" ]; then
@@ -70,11 +84,11 @@ def gen_tree(rng):
 
 def run(ctx):
     ctx.rule = ("random directory trees below /etc/containers/systemd (numeric and non-numeric names nested to depth 3 below users/, plus system-level subdirectories) with one marker unit "
-                "per directory, plus marker units in /usr/share/containers/systemd and /run/containers/systemd; staged in a private mount namespace (tmpfs over /etc, /run, /usr/share); the real "
+                "per directory, plus marker units in /usr/share/containers/systemd and /run/containers/systemd; staged in a private mount namespace (tmpfs over /etc, /run, /usr/share), in 3 of 5 trees with /etc/containers or /etc/containers/systemd being a symbolic link (relative or absolute target); the real "
                 "binary run as root (system generator) and as 3-4 unprivileged UIDs (--user) with --dry-run; non-trivial = tree has a numeric directory with a nested subdirectory or a numeric "
                 "directory below a non-numeric one; distinct = distinct (tree, uid)")
     rng = ctx.rng
-    ntrees = ctx.volume(6, 60)
+    ntrees = ctx.volume(7, 63)
     if os.geteuid() != 0 or not shutil.which("unshare") or not shutil.which("setpriv"):
         ctx.oblig("end-to-end staging in a mount namespace (needs root, unshare, setpriv)", False, "not available in this environment")
         return
@@ -82,7 +96,8 @@ def run(ctx):
     for t in range(ntrees):
         tree = gen_tree(rng)
         uids = ["root"] + rng.sample([1000, 2000, 3000, 42, 77], 3)
-        plan = {"dirs": [], "uids": uids}
+        plan = {"dirs": [], "uids": uids, "layout": ["plain", "containers_symlink", "containers_symlink_abs", "systemd_symlink_abs", "users_symlink_abs", "systemd_symlink", "users_symlink"][t % 7]}
+        ctx.count("layout:" + plan["layout"])
         markers = {}
         for i, rel in enumerate(tree):
             m = "adm%d" % i
@@ -122,7 +137,7 @@ def run(ctx):
                         if uid != "root" and where == "admin" and len(rel) >= 3 and rel[0] == "users":
                             cls = "LastComponentTested"
                         ctx.failures.append({"op": "e2e", "uid": uid, "dir": path, "tree": ["/".join(r) for r in tree],
-                                             "what": "generator for %s %s %s" % (uid, "reads" if used else "does not read", path), "class": cls})
+                                             "layout": plan["layout"], "what": "generator for %s %s %s (layout %s)" % (uid, "reads" if used else "does not read", path, plan["layout"]), "class": cls})
                     # model correspondence (administrator's tree only)
                     if where == "admin" and ctx.model_ok:
                         if uid == "root":
